@@ -21,11 +21,11 @@ import (
 
 type plonkShape struct {
 	NumChallenges, NumRoutedWires, NumWires, QDF, DegreeBits, NumConstants int
-	GateIDs                                                          []string
-	SelIdx                                                           []int
-	Groups                                                           []ref.Group
-	KIs                                                              []uint64
-	NumGateConstraints                                               int
+	GateIDs                                                                []string
+	SelIdx                                                                 []int
+	Groups                                                                 []ref.Group
+	KIs                                                                    []uint64
+	NumGateConstraints                                                     int
 }
 
 func (s plonkShape) numPartialProducts() int {
